@@ -31,6 +31,9 @@
 #include <parmcb/detail/cycles.hpp>
 #include <parmcb/util.hpp>
 #include <parmcb/mpi/sptrees.hpp>
+#ifdef PARMCB_VERIF
+#include <parmcb/detail/verif_hooks.hpp>
+#endif
 
 namespace parmcb {
 
@@ -145,6 +148,9 @@ namespace parmcb {
                 return a.weight() < b.weight();
             });
         }
+#ifdef PARMCB_VERIF
+        parmcb::verif::report_candidates(g, trees, cycles, forest_index);
+#endif
         ShortestOddCycleLookup<Graph, WeightMap, ParallelUsingTBB> cycle_lookup(g, weight_map, trees, cycles,
                 sorted_cycles);
 
